@@ -216,11 +216,13 @@ def c05_digest_bytes():
 def c05_iadd(ftype, extra):
     from flow.record import RecordDescriptor
 
-    rec = RecordDescriptor("c05/rec", [(ftype, "x"), ("varint", "n")])(x=[1] if ftype.startswith("uint") else ["a"], n=1)
+    rec = RecordDescriptor("c05/rec", [(ftype, "x"), ("varint", "n")])(x=[1] if ftype.startswith("uint") else ["9.9.9.9"] if ftype.startswith("net") else ["a"], n=1)
+    before, before_id = list(rec.x), id(rec.x)
     try:
         rec.x += _eval(extra)
     except Exception:
-        return {"violates": False, "outcome": "rejected"}
+        same = id(rec.x) == before_id and len(rec.x) == len(before) and all(a is b for a, b in zip(rec.x, before))
+        return {"violates": not same, "outcome": "rejected", "detail": None if same else f"the refused x += {extra} changed the record: the field holds {list(rec.x)!r}, before {before!r}"}
     bad = [type(e).__name__ for e in rec.x if type(e).__name__ != ftype[:-2]]
     ser = _serialisable(rec)
     return {"violates": bool(bad or ser), "detail": f"after x += {extra} the {ftype} field holds elements of the types {[type(e).__name__ for e in rec.x]} ({ser or 'serialisable'})" if (bad or ser) else None}
